@@ -7,6 +7,7 @@ import (
 	"sort"
 	"strconv"
 	"strings"
+	"syscall"
 	"time"
 
 	"github.com/Flowpack/prunner/zverif/vsched"
@@ -134,11 +135,38 @@ func unitsFor(prop, tier string) []Unit {
 	return us
 }
 
+// Budget is the internal deadline of a unit. It is counted in CPU time of the worker process, so that a loaded
+// machine stretches the wall-clock time of a check but does not change what it explores; a generous wall-clock
+// limit (4x) remains as a backstop. Hitting either ends the unit with exit 0 and exhaustive=false.
+type Budget struct {
+	cpu  time.Duration // process CPU time (user+sys) at which the budget is spent; 0 = unlimited
+	wall time.Time
+}
+
+func cpuTime() time.Duration {
+	var ru syscall.Rusage
+	if err := syscall.Getrusage(syscall.RUSAGE_SELF, &ru); err != nil {
+		return 0
+	}
+	return time.Duration(ru.Utime.Nano() + ru.Stime.Nano())
+}
+
+func newBudget(d time.Duration) Budget {
+	return Budget{cpu: cpuTime() + d, wall: time.Now().Add(4 * d)}
+}
+
+func (b Budget) Exceeded() bool {
+	if b.cpu == 0 {
+		return false
+	}
+	return cpuTime() >= b.cpu || time.Now().After(b.wall)
+}
+
 func unitDeadline(tier string) time.Duration {
 	if tier == "thorough" {
 		return 12 * time.Minute
 	}
-	return 60 * time.Second
+	return 80 * time.Second
 }
 
 func runUnit(u Unit) UnitResult {
@@ -233,7 +261,7 @@ func logStrings(w *World) []string {
 func runX1Unit(u Unit, sc *Scenario, bound int) UnitResult {
 	res := UnitResult{Name: u.Name}
 	x := NewX1(sc, bound)
-	x.Deadline = time.Now().Add(unitDeadline(u.Tier))
+	x.Deadline = newBudget(unitDeadline(u.Tier))
 	if u.Prop == "C13" {
 		if !vsched.RaceBuild && os.Getenv("VERIF_C13_NORACE") == "" {
 			panic(InfraError{"C13 units must run in the race build of the engine"})
@@ -358,7 +386,7 @@ func checkExec(sc *Scenario, ex *Exec) []Violation {
 		vs = append(vs, Violation{Property: "*", Rule: "deadlock", Norm: "deadlock", Msg: ex.Deadlock})
 	}
 	if ex.W.S.Panic != nil {
-		vs = append(vs, Violation{Property: "C13", Rule: "panic", Norm: "panic"})
+		vs = append(vs, panicViolation(ex.W.S.Panic, ex.W.S.PanicStack))
 	}
 	if sc.Check != nil {
 		vs = append(vs, sc.Check(ex.W, ex)...)
